@@ -36,12 +36,21 @@ CF = "qkeras.qtools.quantized_operators.accumulator_factory"
 MG = "qkeras.qtools.quantized_operators.merge_factory"
 MF = "qkeras.qtools.quantized_operators.multiplier_factory"
 
-DOM = {"b1": range(1, 11), "b2": range(1, 11), "i1": range(0, 7),
-       "i2": range(0, 7), "f1": range(0, 8), "f2": range(0, 8),
-       "bw": range(1, 9), "bx": range(1, 9),
-       "iw": range(0, 5), "ix": range(0, 5),
-       "k0": (1, 2, 3, 5, 1024), "k1": (1, 2, 3, 7), "k2": (1, 2, 3, 64),
-       "k3": (1, 2, 16)}
+DOM_QUICK = {"b1": range(1, 11), "b2": range(1, 11), "i1": range(0, 7),
+             "i2": range(0, 7), "f1": range(0, 8), "f2": range(0, 8),
+             "bw": range(1, 9), "bx": range(1, 9),
+             "iw": range(0, 5), "ix": range(0, 5),
+             "k0": (1, 2, 3, 5, 1024), "k1": (1, 2, 3, 7),
+             "k2": (1, 2, 3, 64), "k3": (1, 2, 16)}
+# thorough: witness search for non-identical forms over wider operands
+DOM_THOROUGH = {"b1": range(1, 25), "b2": range(1, 25), "i1": range(0, 13),
+                "i2": range(0, 13), "f1": range(0, 13), "f2": range(0, 13),
+                "bw": range(1, 17), "bx": range(1, 17),
+                "iw": range(0, 9), "ix": range(0, 9),
+                "k0": (1, 2, 3, 5, 9, 17, 1024, 4097),
+                "k1": (1, 2, 3, 5, 7), "k2": (1, 2, 3, 64, 513),
+                "k3": (1, 2, 3, 16, 512)}
+DOM = dict(DOM_QUICK)
 SWAP = {("sym", "b1"): NF.sym("b2"), ("sym", "b2"): NF.sym("b1"),
         ("sym", "i1"): NF.sym("i2"), ("sym", "i2"): NF.sym("i1"),
         ("sym", "f1"): NF.sym("f2"), ("sym", "f2"): NF.sym("f1")}
@@ -295,6 +304,8 @@ def rule_merge(rep, repo):
 
 
 def run(rep, repo, tier):
+  DOM.clear()
+  DOM.update(DOM_THOROUGH if tier == "thorough" else DOM_QUICK)
   rep.trusted.append("two's-complement ranges of the qtools types; po2 "
                      "exponent range from the repository's get_min_max_exp")
   rep.assumptions.append("sufficiency for N up to 2^20 is proved "
